@@ -19,7 +19,7 @@ CHECKS = {
    "No symlinks in the tree; Linux path semantics; snapshot attribution is batch-wise (changes allowed in the receive dir once any WRQ of the batch was accepted).",
    "bounded-exhaustive name enumeration + proptest, filesystem-snapshot oracle against the real binary", "4/C03"),
  "C04": ("sim", "fault_enumeration",
-   "Every placement of 1 and 2 faults (thorough 3) of 4 kinds over all datagrams of both directions for windowsize 1..4 (5), 6 lengths x 3 last-block shapes, 2 peer styles, both roles, plus proptest random fault lists (<=5 faults); oracle = model peer holds the complete file and the worker ended successfully (RFC 1350 last-ACK exception only).",
+   "Every placement of 1 and 2 faults (thorough 3) of 4 kinds over all datagrams of both directions for windowsize 1..4 (5), 6 lengths x 3 last-block shapes, 2 peer styles, both roles, plus proptest random fault lists (<=5 faults), 6..11 isolated faults three windows apart, and a wire part with 1..5 consecutive losses against the real tftpd at timeout 1 s; oracle = model peer holds the complete file and the worker ended successfully (RFC 1350 last-ACK exception only).",
    "Precondition by construction (<=5 faults, peer timer = worker timeout). Exhaustive only inside the stated box.",
    "exhaustive fault-placement enumeration + proptest, completion oracle with a conformant model peer", "4/C04"),
  "C05": ("wire", "exploration",
@@ -55,7 +55,7 @@ CHECKS = {
    "Interleaving granularity = one request or window per step; server-internal bind/connect gap not schedulable.",
    "exhaustive 2-client interleavings + proptest schedules against the real binary", "4/C12"),
  "C13": ("sim", "fault_enumeration",
-   "Every abort point (silence / peer ERROR at every receive position; write error via RLIMIT_FSIZE at every block edge) x clean/keep x windowsize 1..4 (6) in the simulator plus proptest; a wire part generates duplicate/retransmitted WRQ histories against the real tftpd and waits out the stale workers. Known finding F6 (signature stale-upload-worker-cleanup) is tolerated for exactly that outcome and printed as KNOWN-FINDING.",
+   "Every abort point (silence / peer ERROR at every receive position; write error via RLIMIT_FSIZE at every block edge) x clean/keep x windowsize 1..4 (6) in the simulator plus proptest; a wire part aborts real uploads (with/without tsize, clean/keep, ERROR/silence) and generates duplicate/retransmitted WRQ histories against the real tftpd, waiting out the stale workers. Known finding F6 (signature stale-upload-worker-cleanup) is tolerated for exactly that outcome and printed as KNOWN-FINDING.",
    "Write errors only as EFBIG; the no-overwrite create/exists race is judged whichever way it falls.",
    "exhaustive abort-point enumeration + proptest, directory post-condition oracle; wire histories", "4/C13"),
  "C14": ("wire", "exploration",
@@ -117,7 +117,7 @@ def main():
             {"name": "pure", "path": "harness/src/props", "serves_properties": ["C10", "C11", "C17", "C18"], "kind_free_text": "in-process property-based tests of the public API (proptest + bounded-exhaustive enumerators), oracles = independent reference codec / reference models"},
             {"name": "sim", "path": "harness/src/sim.rs", "serves_properties": ["C01", "C02", "C04", "C07", "C08", "C13", "C15", "C16"], "kind_free_text": "the real Worker::send_file/receive_file run against a simulated Socket with a fault-injecting network model, conformant model peers, adversarial scripts and a virtual clock; trace predicates as oracles"},
             {"name": "wire", "path": "harness/src/wire.rs", "serves_properties": ["C03", "C05", "C06", "C09", "C12", "C13", "C14"], "kind_free_text": "the real tftpd/tftpc binaries on loopback driven by generated datagram sequences and model clients; oracles = replies, source ports, timing bounds, exit status, filesystem snapshots"},
-            {"name": "fuzz", "path": "fuzz", "serves_properties": ["C10", "C11", "C18", "C01", "C02"], "kind_free_text": "cargo-fuzz/libFuzzer targets calling the same judge functions (thorough tier)"},
+            {"name": "fuzz", "path": "fuzz", "serves_properties": ["C10", "C11", "C18", "C01", "C02", "C04", "C07", "C08"], "kind_free_text": "cargo-fuzz/libFuzzer targets calling the same judge functions (thorough tier)"},
         ],
         "checks": checks,
         "not_applicable": na,
